@@ -407,6 +407,87 @@ class Fn:
         self._alias = pts
         return pts
 
+    # ---- liveness ----------------------------------------------------------------------------------------------
+    @staticmethod
+    def _place_uses(pl, out, as_dest=False):
+        if pl is None:
+            return
+        if not as_dest or pl["p"]:
+            out.add(pl["l"])
+        for x in pl["p"]:
+            if isinstance(x, dict) and "idx" in x:
+                out.add(x["idx"])
+
+    def _operand_uses(self, o, out):
+        pl = op_place(o)
+        if pl is not None:
+            self._place_uses(pl, out)
+
+    def _stmt_uses_defs(self, s):
+        uses, kills = set(), set()
+        if s["k"] == "assign":
+            rv = s["rv"]
+            for k in ("a", "b"):
+                if k in rv and isinstance(rv[k], dict):
+                    self._operand_uses(rv[k], uses)
+            for o in rv.get("ops", ()):
+                self._operand_uses(o, uses)
+            if "place" in rv:
+                self._place_uses(rv["place"], uses)
+            pl = s["place"]
+            self._place_uses(pl, uses, as_dest=True)
+            if not pl["p"]:
+                kills.add(pl["l"])
+        elif s["k"] == "setdiscr":
+            uses.add(s["place"]["l"])
+        return uses, kills
+
+    def _term_uses_defs(self, t):
+        uses, kills = set(), set()
+        k = t["k"]
+        if k == "call":
+            for a in t["args"]:
+                self._operand_uses(a, uses)
+            if "fnptr" in t:
+                self._operand_uses(t["fnptr"], uses)
+            self._place_uses(t["dest"], uses, as_dest=True)
+            if not t["dest"]["p"]:
+                kills.add(t["dest"]["l"])
+        elif k == "switch":
+            self._operand_uses(t["discr"], uses)
+        elif k == "assert":
+            self._operand_uses(t["cond"], uses)
+        elif k == "return":
+            uses.add(0)
+        return uses, kills
+
+    def live_in(self):
+        """bb -> set of locals whose value on entry to bb may be read before being fully redefined"""
+        if getattr(self, "_live", None) is not None:
+            return self._live
+        gen, kill = {}, {}
+        for bb in self.reachable():
+            g, k = set(), set()
+            items = [self._stmt_uses_defs(s) for s in self.stmts(bb)] + [self._term_uses_defs(self.term(bb))]
+            for uses, kills in items:
+                g |= (uses - k)
+                k |= kills
+            gen[bb], kill[bb] = g, k
+        live = {bb: set(gen[bb]) for bb in self.reachable()}
+        changed = True
+        while changed:
+            changed = False
+            for bb in self.reachable():
+                out = set()
+                for sx in self.succ[bb]:
+                    out |= live.get(sx, set())
+                new = gen[bb] | (out - kill[bb])
+                if new != live[bb]:
+                    live[bb] = new
+                    changed = True
+        self._live = live
+        return live
+
     # ---- definitions of locals ---------------------------------------------------------------------------------
     def defs(self):
         """local -> list of (bb, i, kind, path, payload); kind in full|part|calldest|mod|store
@@ -480,10 +561,32 @@ class Fn:
         if v == "zst":
             return ("const", ty, ("zst",))
         if "promoted" in c:
+            pv = self._promoted_value(c["promoted"])
+            if pv is not None:
+                return pv
             return ("const", ty, ("promoted", c["promoted"]))
         if "path" in c:
             return ("const", ty, ("path", c["path"]))
         return ("const", ty, ("opaque",))
+
+    def _promoted_value(self, idx):
+        proms = self.mir.get("promoted") or []
+        if idx >= len(proms):
+            return None
+        key = ("promoted", idx)
+        if key in self._vmemo:
+            return self._vmemo[key]
+        self._vmemo[key] = None
+        pf = Fn(self.name + "#promoted%d" % idx, self.d, self.facts, body=dict(proms[idx], promoted=[]))
+        v = None
+        for bb in sorted(pf.reachable()):
+            if pf.term(bb)["k"] == "return":
+                v = pf.local_value(0, pf.end_point(bb))
+                # a promoted is `&value`: keep it as a ref to the value term
+                if v[0] == "refplace":
+                    v = ("ref", False, pf.local_value(v[2], pf.end_point(bb)))
+        self._vmemo[key] = v
+        return v
 
     def operand(self, o, point):
         """term for operand `o` evaluated just before `point`"""
@@ -498,8 +601,24 @@ class Fn:
         base = self.local_value(pl["l"], point)
         return self._project(base, [_pj(x) for x in pl["p"]], point)
 
+    def _norm_pj(self, pj, point):
+        if isinstance(pj, tuple) and pj[0] == "idx":
+            v = self.local_value(pj[1], point)
+            if v[0] == "const" and isinstance(v[2], int) and not isinstance(v[2], bool):
+                return ("elem", v[2])
+            return ("elem", None, v)
+        if isinstance(pj, tuple) and pj[0] == "cidx" and not pj[2]:
+            return ("elem", pj[1])
+        return pj
+
+    def _norm_path(self, path, point):
+        if path is None:
+            return None
+        return tuple(self._norm_pj(x, point) for x in path)
+
     def _project(self, base, projs, point):
         cur = base
+        projs = [self._norm_pj(x, point) for x in projs]
         for pj in projs:
             if pj == "deref":
                 cur = self._deref(cur, point)
@@ -518,14 +637,16 @@ class Fn:
                 and len(t[2]) == 2:
             k = t[2][1]
             kk = k[2] if (k[0] == "const" and isinstance(k[2], int)) else None
-            base = self._deref(t[2][0], self.end_point(t[3]))
+            # the pointee is evaluated at the point of use: borrowck guarantees it was not modified since the
+            # reference was derived (and this avoids re-entrant evaluation at another block)
+            base = self._deref(t[2][0], point)
             if kk is not None:
                 return self._proj1(base, ("elem", kk))
-            return ("proj", base, ("elem", None, k))
+            return self._proj1(base, ("elem", None, k))
         if t[0] == "call" and isinstance(t[1], str) and t[1] in ("std::ops::Deref::deref", "std::ops::DerefMut::deref_mut",
                                                                   "<std::vec::Vec<T, A> as std::ops::Deref>::deref",
                                                                   "<std::vec::Vec<T, A> as std::ops::DerefMut>::deref_mut"):
-            return ("proj", self._deref(t[2][0], self.end_point(t[3])), "slice")
+            return ("proj", self._deref(t[2][0], point), "slice")
         return ("proj", t, "deref")
 
     def _proj1(self, t, pj):
@@ -535,7 +656,8 @@ class Fn:
             if kind in ("tuple",) or (isinstance(kind, tuple) and kind[0] in ("adt", "closure")):
                 if pj[1] < len(t[2]):
                     return t[2][pj[1]]
-        if t[0] == "agg" and t[1] == "array" and isinstance(pj, tuple) and pj[0] == "cidx" and not pj[2]:
+        if t[0] == "agg" and t[1] == "array" and isinstance(pj, tuple) and pj[0] == "elem" and len(pj) == 2 \
+                and pj[1] is not None:
             if pj[1] < len(t[2]):
                 return t[2][pj[1]]
         if t[0] == "upd":
@@ -547,6 +669,8 @@ class Fn:
                     return ("upd", self._proj1(base, pj), path[1:], val)
                 if self._disjoint(path[0], pj):
                     return self._proj1(base, pj)
+        if t[0] == "bin" and t[1] in ("AddWithOverflow", "SubWithOverflow", "MulWithOverflow") and pj == ("f", 0):
+            return ("bin", t[1][:3], t[2], t[3])
         return ("proj", t, pj)
 
     @staticmethod
@@ -554,7 +678,7 @@ class Fn:
         if isinstance(a, tuple) and isinstance(b, tuple) and a[0] == b[0] and a[0] in ("f", "cidx"):
             return a != b
         if isinstance(a, tuple) and isinstance(b, tuple) and a[0] == b[0] == "elem":
-            return a[1] is not None and b[1] is not None and a[1] != b[1]
+            return len(a) == 2 and len(b) == 2 and a[1] is not None and b[1] is not None and a[1] != b[1]
         if isinstance(a, tuple) and isinstance(b, tuple) and a[0] == "variant" and b[0] == "variant":
             return a[1] != b[1]
         return False
@@ -596,7 +720,7 @@ class Fn:
                 val = self.call_term(payload, bb)
             else:
                 val = ("unknown", "setdiscr")
-            v = ("upd", before, path, val)
+            v = ("upd", before, self._norm_path(path, (bb, i)), val)
         elif kind == "mod":
             before = self.local_value(l, (bb, i))
             v = ("mod", before, (bb, payload.get("resolved") or payload.get("callee")), path)
@@ -609,6 +733,20 @@ class Fn:
         key = ("entry", l, bb)
         if key in self._vmemo:
             return self._vmemo[key]
+        if not self._is_live(l, bb):
+            v = ("unknown", "dead")
+            self._vmemo[key] = v
+            return v
+        # loop headers first (outermost first), so that walks started inside a loop stop at its header phi
+        encl = [lp for lp in self.loops() if bb in lp.body and lp.header != bb]
+        encl.sort(key=lambda lp: -len(lp.body))
+        for lp in encl:
+            if ("entry", l, lp.header) not in self._vmemo and self._is_live(l, lp.header):
+                self._block_entry_value(l, lp.header)
+        if key in self._vmemo:
+            return self._vmemo[key]
+        is_header = any(lp.header == bb for lp in self.loops())
+        guard = ("loopphi", (bb, l)) if is_header else ("unknown", "cycle")
         if bb == 0:
             v = ("arg", l) if 1 <= l <= self.nargs else ("unknown", "uninit")
             self._vmemo[key] = v
@@ -623,11 +761,11 @@ class Fn:
             self._vmemo[key] = v
             return v
         if len(preds) == 1:
-            self._vmemo[key] = ("loopphi", (bb, l))  # cycle guard
+            self._vmemo[key] = guard
             v = self.local_value(l, (preds[0], len(self.stmts(preds[0])) + 1))
             self._vmemo[key] = v
             return v
-        self._vmemo[key] = ("loopphi", (bb, l))
+        self._vmemo[key] = guard
         ops = []
         for p in preds:
             ops.append(self.local_value(l, (p, len(self.stmts(p)) + 1)))
@@ -694,6 +832,28 @@ class Fn:
         if k == "repeat":
             return ("repeat", self.operand(rv["a"], point), rv.get("n"))
         return ("unknown", k)
+
+    def _is_live(self, l, bb):
+        """l may be read after entry to bb before being fully redefined, directly or through a live pointer to it"""
+        live = self.live_in().get(bb, ())
+        if l in live:
+            return True
+        ptrs = getattr(self, "_ptrs_to", None)
+        if ptrs is None:
+            ptrs = {}
+            for p, tgts in self.alias().items():
+                for (tl, path, m) in tgts:
+                    ptrs.setdefault(tl, set()).add(p)
+            self._ptrs_to = ptrs
+        return any(p in live for p in ptrs.get(l, ()))
+
+    def phi_def(self, t):
+        """definition of a ('loopphi', (bb, l)) name: the phi term at that loop header (or t itself)"""
+        if t[0] == "loopphi":
+            bb, l = t[1]
+            v = self._block_entry_value(l, bb)
+            return v
+        return t
 
     # convenience --------------------------------------------------------------------------------------------------
     def arg_terms(self, bb):
